@@ -1,8 +1,9 @@
 SPECIFICATION TSpec
 CONSTANTS
   NL = 1
-  NP = 1
+  Sizes = {1}
   GraphMode = "rep"
   MaxSwaps = 1000000
-INVARIANTS PublishedAreTokens PiTracksTokens MappingsInjective MappingsInRange PlacementConnected TokensConserved
+  MaxSteps = 1000000
+INVARIANTS TInv
 CHECK_DEADLOCK FALSE
